@@ -177,12 +177,12 @@ func main() {
 	var pts []mc.PVal
 	for _, p := range pa {
 		l := p.Label
-		if p.P.Inf || l == "1G" || l == "-2G" || l == "lambda*G" || len(l) > 7 && l[:7] == "small x" && p.P.Y.Bit(0) == 1 || len(l) > 6 && l[:6] == "seeded" || len(l) > 3 && l[:3] == "x=n" && p.P.Y.Bit(0) == 0 {
+		if p.P.Inf || l == "1G" || l == "-1G" || l == "-2G" || l == "lambda*G" || len(l) > 7 && l[:7] == "small x" && p.P.Y.Bit(0) == 1 || len(l) > 6 && l[:6] == "seeded" || len(l) > 3 && l[:3] == "x=n" && p.P.Y.Bit(0) == 0 {
 			pts = append(pts, p)
 		}
 	}
-	if !th && len(pts) > 5 {
-		pts = pts[:5]
+	if !th && len(pts) > 6 {
+		pts = pts[:6]
 	}
 	zs := []*big.Int{big.NewInt(1), new(big.Int).Sub(ref.P, big.NewInt(2))}
 	if th { // thorough: the whole point alphabet (both signs, small x / small y, x in [n,p), endomorphism images) x 3 representatives
